@@ -403,6 +403,11 @@ class ExprMixin(object):
             return Or(*[And(en.guard, same(en.val)) for en in container.entries])
         if isinstance(container, PyObj):
             o = container.o
+            if isinstance(o, tuple) and len(o) == 2 and o[0] in (map, zip, enumerate, reversed, range, iter, filter):
+                items = self.iter_items(st, container)
+                if items is None:
+                    raise EngineError('`in` on a lazy iterable over a symbolic sequence')
+                return Or(*[same(x) for x in items])
             if isinstance(o, (dict, set, frozenset, list, tuple)):
                 keys = list(o)
                 return Or(*[same(self.lift(k)) for k in keys])
